@@ -61,7 +61,8 @@ class ComputeInfo(Target):
             produced = c.one_of('file_produced_by_a_component', [True, False])
             state = c.one_of('input', ['file', 'missing', 'directory'])
             method = c.one_of('method', ['ref', 'copy', 'output'])
-            prod_hash = True
+            # the fuzzy hash of a file a component produces is built from THAT producer's fuzzy hash, which may not exist
+            prod_hash = c.one_of('producer_has_a_hash', [True, False]) if produced else True
         mention = c.one_of('mentioned_as', ['absolute', 'relative', 'not-mentioned'])
         backend = c.one_of('backend', ['local', 'kubernetes', 'lsf'])
         custom_js = None
@@ -129,7 +130,8 @@ class ComputeInfo(Target):
 
     def ensures(self, c, st, out):
         # a producer without a hash is a missing input of everything that reads its directory: no record (None or an error)
-        unhashable_producer = st.whole_dir and not st.prod_hash and st.mention != 'not-mentioned'
+        unhashable_producer = (st.whole_dir and not st.prod_hash and st.mention != 'not-mentioned') or \
+            (not st.whole_dir and st.produced and not st.prod_hash and st.fuzzy and st.state == 'file' and st.loc_fail == 'ok')
         if out.kind == 'raise':
             return [('no-exception', unhashable_producer)]
         r = out.value
@@ -158,7 +160,7 @@ class ComputeInfo(Target):
             md5_later = hashlib.md5(CONTENTS[1]).hexdigest()
             cl.append(('a-later-request-hashes-the-current-contents',
                        isinstance(again, dict) and again.get('files') == ['%s:%s' % (md5_later, st.method)]))
-        if st.state == 'file':
+        if st.state == 'file' and not unhashable_producer:
             if not st.fuzzy:
                 want_files = ['%s:%s' % (md5, st.method)]
             elif st.produced:
